@@ -12,8 +12,9 @@ section
 variable (σ : Mapper) (req : Request) (es : Entities) (env : SlotEnv)
 
 variable (hctx : (Value.record req.context).Canon)
-  (m0 : Mapper) (preq : PRequest) (pes : PEntities) (hS : StoreCompletes σ pes es) (hm : MapLE m0 σ)
+  (m0 : Mapper) (preq : PRequest) (pes : PEntities) (U : EntityUID → Prop) (hS : StoreCompletesOn U σ pes es) (hm : MapLE m0 σ)
   (hC : Concretizes2 σ es preq req)
+  (hSI : StoreIn U pes) (hRI : ReqIn U preq) (hMI : MapIn U m0) (hVI : EnvIn U env)
 
 include hctx hC in
 theorem sound3_var (v : Var) (n : Nat) :
@@ -61,15 +62,18 @@ theorem sound3_var (v : Var) (n : Nat) :
           refine s2_res ?_ (typedOK_vacuous (by intro _ _ h; cases h)) hc.1
           rw [hc.2 req env]; simp
 
-include hctx hS hm hC in
-/-- **first-pass soundness, substitution form** on `Frag2 σ`, for a partial store completed by `es` and a possibly residual context -/
-theorem pinterp_sound3 : ∀ (n : Nat) (e : Expr), Frag2 σ e →
+include hctx hS hm hC hSI hRI hMI hVI in
+/-- **first-pass soundness, substitution form** on `Frag2 σ`, for a partial store completed by `es` ON the uids of `U`
+    (closed world: expression, request, mapper, slot environment and store values mention only uids of `U`) and a possibly
+    residual context -/
+theorem pinterp_sound3_on : ∀ (n : Nat) (e : Expr), Frag2 σ e → EIn U e →
     Sound2 σ req es env (Y σ req es env e) (pinterp m0 preq pes env n e) := by
   intro n
   induction n with
-  | zero => intro e _; simp [pinterp, Sound2]
+  | zero => intro e _ _; simp [pinterp, Sound2]
   | succ n ih =>
-  intro e hf
+  intro e hf hE
+  have hin := pinterp_in hSI hRI hMI hVI n
   cases hf with
   | lit p => simp [pinterp, Sound2, Y, Expr.substUnk, evaluate, Value.Canon]
   | var v => exact sound3_var σ req es env hctx m0 preq pes hC v (n + 1)
@@ -80,8 +84,8 @@ theorem pinterp_sound3 : ∀ (n : Nat) (e : Expr), Frag2 σ e →
   | slot s =>
     cases hl : env.lookup s <;> simp [pinterp, Y, Expr.substUnk, evaluate, hl, Sound2, Value.Canon]
   | @and a b hfa hfb =>
-    have sa := ih a hfa
-    have sb := ih b hfb
+    have sa := ih a hfa (eIn_and.mp hE).1
+    have sb := ih b hfb (eIn_and.mp hE).2
     simp only [pinterp]
     cases hxa : pinterp m0 preq pes env n a with
     | fuel => red; trivial
@@ -124,8 +128,8 @@ theorem pinterp_sound3 : ∀ (n : Nat) (e : Expr), Frag2 σ e →
         obtain ⟨hX, hfX⟩ := best2 hfb sb hB
         exact s2_res (agree_and sa.1 hX) (typedOK_vacuous (by intro _ _ h; cases h)) (.and sa.2.2 hfX)
   | @or a b hfa hfb =>
-    have sa := ih a hfa
-    have sb := ih b hfb
+    have sa := ih a hfa (eIn_or.mp hE).1
+    have sb := ih b hfb (eIn_or.mp hE).2
     simp only [pinterp]
     cases hxa : pinterp m0 preq pes env n a with
     | fuel => red; trivial
@@ -168,9 +172,9 @@ theorem pinterp_sound3 : ∀ (n : Nat) (e : Expr), Frag2 σ e →
         obtain ⟨hX, hfX⟩ := best2 hfb sb hB
         exact s2_res (agree_or sa.1 hX) (typedOK_vacuous (by intro _ _ h; cases h)) (.or sa.2.2 hfX)
   | @ite c t e hfc hft hfe =>
-    have sc := ih c hfc
-    have st := ih t hft
-    have se := ih e hfe
+    have sc := ih c hfc (eIn_ite.mp hE).1
+    have st := ih t hft (eIn_ite.mp hE).2.1
+    have se := ih e hfe (eIn_ite.mp hE).2.2
     simp only [pinterp]
     cases hxc : pinterp m0 preq pes env n c with
     | fuel => red; trivial
@@ -207,7 +211,7 @@ theorem pinterp_sound3 : ∀ (n : Nat) (e : Expr), Frag2 σ e →
           obtain ⟨hE, hfE⟩ := best2 hfe se hBe
           exact s2_res (agree_ite sc.1 hT hE) (typedOK_vacuous (by intro _ _ h; cases h)) (.ite sc.2.2 hfT hfE)
   | @unaryApp op a hfa =>
-    have sa := ih a hfa
+    have sa := ih a hfa (eIn_unary.mp hE)
     simp only [pinterp]
     cases hxa : pinterp m0 preq pes env n a with
     | fuel => red; trivial
@@ -223,8 +227,8 @@ theorem pinterp_sound3 : ∀ (n : Nat) (e : Expr), Frag2 σ e →
       rw [hxa] at sa
       exact s2_res (agree_unary op sa.1) (typedOK_vacuous (by intro _ _ h; cases h)) (.unaryApp op sa.2.2)
   | @binaryApp op a b hfa hfb =>
-    have sa := ih a hfa
-    have sb := ih b hfb
+    have sa := ih a hfa (eIn_binary.mp hE).1
+    have sb := ih b hfb (eIn_binary.mp hE).2
     simp only [pinterp]
     cases hxa : pinterp m0 preq pes env n a with
     | fuel => red; trivial
@@ -243,7 +247,7 @@ theorem pinterp_sound3 : ∀ (n : Nat) (e : Expr), Frag2 σ e →
         rw [hxb] at sb; obtain ⟨hevb, hd2⟩ := sb; simp only [Y] at hevb
         have : Y σ req es env (.binaryApp op a b) = applyBinary es op v1 v2 := by simp [Y, Expr.substUnk, evaluate, hev', hevb]
         rw [this]
-        exact papplyBinary_sound3 hS op hd1 hd2
+        exact papplyBinary_sound3_on hS op hd1 hd2 (by have := hin a (eIn_binary.mp hE).1; rw [hxa] at this; exact this)
       | res e2 =>
         red
         rw [hxb] at sb
@@ -306,7 +310,7 @@ theorem pinterp_sound3 : ∀ (n : Nat) (e : Expr), Frag2 σ e →
           red
           exact s2_res (agree_binary op sa.1 sb.1) (typedOK_vacuous (by intro _ _ h; cases h)) (.binaryApp op sa.2.2 sb.2.2)
   | @like e0 p hfe =>
-    have se := ih e0 hfe
+    have se := ih e0 hfe (eIn_like.mp hE)
     simp only [pinterp]
     cases hxe : pinterp m0 preq pes env n e0 with
     | fuel => red; trivial
@@ -323,7 +327,7 @@ theorem pinterp_sound3 : ∀ (n : Nat) (e : Expr), Frag2 σ e →
       | error c => red; exact s2_err c (by simp [Y, Expr.substUnk, evaluate, hev, hs])
       | ok s => red; exact s2_val (by simp [Y, Expr.substUnk, evaluate, hev, hs]) trivial
   | @is e0 ty hfe =>
-    have se := ih e0 hfe
+    have se := ih e0 hfe (eIn_is.mp hE)
     simp only [pinterp]
     cases hxe : pinterp m0 preq pes env n e0 with
     | fuel => red; trivial
@@ -345,7 +349,7 @@ theorem pinterp_sound3 : ∀ (n : Nat) (e : Expr), Frag2 σ e →
       | error c => red; exact s2_err c (by simp [Y, Expr.substUnk, evaluate, hev, hs])
       | ok u => red; exact s2_val (by simp [Y, Expr.substUnk, evaluate, hev, hs]) trivial
   | @set xs hxs =>
-    have hc := collect_sound2 (σ := σ) (req := req) (es := es) (env := env) (pinterp m0 preq pes env n) xs (fun x hx => ih x (hxs x hx))
+    have hc := collect_sound2 (σ := σ) (req := req) (es := es) (env := env) (pinterp m0 preq pes env n) xs (fun x hx => ih x (hxs x hx) (eIn_set_mem hE hx))
     simp only [pinterp]
     cases hcc : collectPV (pinterp m0 preq pes env n) xs with
     | error r =>
@@ -368,7 +372,7 @@ theorem pinterp_sound3 : ∀ (n : Nat) (e : Expr), Frag2 σ e →
         obtain ⟨h1, h2⟩ := pvrel2_asExpr hc
         exact s2_res (agree_set h1) (typedOK_vacuous (by intro _ _ h; cases h)) (.set h2)
   | @call fn args hfn hxs =>
-    have hc := collect_sound2 (σ := σ) (req := req) (es := es) (env := env) (pinterp m0 preq pes env n) args (fun x hx => ih x (hxs x hx))
+    have hc := collect_sound2 (σ := σ) (req := req) (es := es) (env := env) (pinterp m0 preq pes env n) args (fun x hx => ih x (hxs x hx) (eIn_call_mem hE hx))
     simp only [pinterp]
     cases hcc : collectPV (pinterp m0 preq pes env n) args with
     | error r =>
@@ -393,7 +397,7 @@ theorem pinterp_sound3 : ∀ (n : Nat) (e : Expr), Frag2 σ e →
         obtain ⟨h1, h2⟩ := pvrel2_asExpr hc
         exact s2_res (agree_call fn h1) (typedOK_vacuous (by intro _ _ h; cases h)) (.call fn hfn h2)
   | @record kvs hnd hkvs =>
-    have hc := collectKVs_sound2 (σ := σ) (req := req) (es := es) (env := env) (pinterp m0 preq pes env n) kvs (fun kv hkv => ih kv.2 (hkvs kv hkv))
+    have hc := collectKVs_sound2 (σ := σ) (req := req) (es := es) (env := env) (pinterp m0 preq pes env n) kvs (fun kv hkv => ih kv.2 (hkvs kv hkv) (eIn_record_mem hE hkv))
     simp only [pinterp]
     cases hcc : collectPVKVs (pinterp m0 preq pes env n) kvs with
     | error r =>
@@ -418,7 +422,8 @@ theorem pinterp_sound3 : ∀ (n : Nat) (e : Expr), Frag2 σ e →
         obtain ⟨h1, h2, h3⟩ := pvrelKV2_asExpr hc
         exact s2_res (agree_record h1) (typedOK_vacuous (by intro _ _ h; cases h)) (.record (by rw [h3]; exact hnd) h2)
   | @getAttr e0 attr hfe =>
-    have se := ih e0 hfe
+    have se := ih e0 hfe (eIn_getAttr.mp hE)
+    have hin0 := hin e0 (eIn_getAttr.mp hE)
     simp only [pinterp]
     cases hxe : pinterp m0 preq pes env n e0 with
     | fuel => red; trivial
@@ -451,7 +456,7 @@ theorem pinterp_sound3 : ∀ (n : Nat) (e : Expr), Frag2 σ e →
             rw [hlk] at hl
             obtain ⟨v', hv', hlv⟩ := hl
             obtain ⟨k', hk'⟩ := mem_of_lookupKV hlk
-            have s' := ih e' (hcomp _ hk')
+            have s' := ih e' (hcomp _ hk') (by rw [hxe] at hin0; exact eIn_record_mem hin0 hk')
             have : Y σ req es env (.getAttr e0 attr) = Y σ req es env e' := by
               rw [hv']; simp [Y, Expr.substUnk, evaluate, hY0, hlv]
             rw [this]; exact s'
@@ -514,13 +519,14 @@ theorem pinterp_sound3 : ∀ (n : Nat) (e : Expr), Frag2 σ e →
           · rw [hE]; red
             exact s2_err .entity (by simp [Y, Expr.substUnk, evaluate, hev, hS.noSuch hf hp])
           · rw [hE]; red
-            have hb := hS.bound hf hp
+            have hb := hS.bound hf hp (by rw [hxe] at hin0; exact hin0 u (by simp [Cedar.Tpe.valueUids]))
             refine s2_res ?_ (typedOK_vacuous (by intro _ _ h; cases h)) (.getAttr attr (.unknown _ _ (unkOK_of_bound hb)))
             refine agree_getAttr attr ?_
             rw [Y_bound req es env hb]
             simp [Y, hev]
   | @hasAttr e0 attr hfe =>
-    have se := ih e0 hfe
+    have se := ih e0 hfe (eIn_hasAttr.mp hE)
+    have hin0 := hin e0 (eIn_hasAttr.mp hE)
     simp only [pinterp]
     cases hxe : pinterp m0 preq pes env n e0 with
     | fuel => red; trivial
@@ -574,13 +580,24 @@ theorem pinterp_sound3 : ∀ (n : Nat) (e : Expr), Frag2 σ e →
           · rw [hE]; red
             exact s2_val (by simp [Y, Expr.substUnk, evaluate, hev, hS.noSuch hf hp]) trivial
           · rw [hE]; red
-            have hb := hS.bound hf hp
+            have hb := hS.bound hf hp (by rw [hxe] at hin0; exact hin0 u (by simp [Cedar.Tpe.valueUids]))
             refine s2_res ?_ (typedOK_vacuous (by intro _ _ h; cases h)) (.hasAttr attr (.unknown _ _ (unkOK_of_bound hb)))
             refine agree_hasAttr attr ?_
             rw [Y_bound req es env hb]
             simp [Y, hev]
 
 end
+
+/-- **first-pass soundness, substitution form** on `Frag2 σ`, for a partial store completed by `es` and a possibly residual
+    context (`StoreCompletes`: every missing uid of a `.partial()` store bound) — `pinterp_sound3_on` with `U` = everything -/
+theorem pinterp_sound3 (σ : Mapper) (req : Request) (es : Entities) (env : SlotEnv) (hctx : (Value.record req.context).Canon)
+    (m0 : Mapper) (preq : PRequest) (pes : PEntities) (hS : StoreCompletes σ pes es) (hm : MapLE m0 σ)
+    (hC : Concretizes2 σ es preq req) (n : Nat) (e : Expr) (hf : Frag2 σ e) :
+    Sound2 σ req es env (Y σ req es env e) (pinterp m0 preq pes env n e) :=
+  pinterp_sound3_on σ req es env hctx m0 preq pes (fun _ => True) (storeCompletesOn_of hS) hm hC
+    (fun _ _ _ => ⟨fun _ pv _ => by cases pv <;> exact fun _ _ => trivial, fun _ pv _ => by cases pv <;> exact fun _ _ => trivial⟩) ⟨by cases preq.principal <;> trivial, by cases preq.action <;> trivial,
+      by cases preq.resource <;> trivial, by rcases preq.context with _ | c | c <;> first | trivial | exact fun _ _ => trivial⟩
+    (fun _ _ _ _ _ => trivial) (fun _ _ _ => trivial) n e hf (fun _ _ => trivial)
 
 end PS
 end Cedar
